@@ -5,7 +5,7 @@ from harness.canon import hx
 from harness.props.bip44_common import IMPL, FAM
 from harness.props.bip32_common import rand_seed, IDX_EDGE
 
-LEAN_MODULES = ["BipVerif.Props.C07"]
+LEAN_MODULES = ["BipVerif.Props.C07", "BipVerif.Props.C07Tables"]
 PATH = ["P", "C", "A0", "X0", "I0"]
 
 
@@ -42,6 +42,15 @@ def gen(rng, tier):
             for op in (ops if tier == "thorough" else rng.sample(ops, 4)):
                 yield Case("bip44", [fam, m, "-", hx(seed), ",".join(pre + [op])], "edge")
         yield Case("bip44", [fam, m, "-", hx(seed), "D"], "default-path")
+    # re-import with arbitrary depth metadata (raw key + depth, parent fingerprint left at its all-zero default), then every operation:
+    # the level is the depth, whatever the fingerprint or the history says
+    fams = sorted({f for f, _ in mem})
+    picks = [rng.choice([x for x in mem if x[0] == f]) for f in fams] + [mem[rng.randrange(len(mem))] for _ in range(2 if tier == "quick" else 40)]
+    for fam, m in picks:
+        for d in range(0, 7):
+            for op in (["P", "C", "A0", "X0", "I0"] if tier == "quick" else ["P", "C", "A0", "X0", "X1", "I0", "D", "N", "RX"]):
+                pre = rng.choice([[], ["P", "C", "A0"], ["P", "C", "A0", "N"]])
+                yield Case("bip44", [fam, m, "-", hx(seed), ",".join(pre + ["RR%d" % d, op])], "reimport-depth")
     # random histories
     for i in range(120 if tier == "quick" else 6000):
         fam, m = mem[rng.randrange(len(mem))]
@@ -57,3 +66,10 @@ def gen(rng, tier):
                 op = rng.choice(ops)
             seq.append(op)
         yield Case("bip44", [fam, m, "-", hx(rand_seed(rng)), ",".join(seq)], "history")
+
+
+def search_broken(broken, rng):
+    """the coin-type/default-path table theorem failed: exhibit a seed whose default-path key differs from plain derivation along
+    m/purpose'/registered coin type'/registered default path."""
+    from harness.props.c08 import search_broken as sb8
+    return sb8(broken, rng, fields=("coinIdx", "defPath", "bip32"))
